@@ -39,6 +39,8 @@ fn main() {
         }
         Some("selftest") => smoke::selftest(),
         Some("bench") => { c05::bench(); 0 }
+        Some("modes") => { smoke::compare_modes(); 0 }
+        Some("leak") => { c03::bench_leak(); 0 }
         Some("trace") => {
             // mc trace <ID> <tier> <cfg_index> <c1,c2,...>
             let prop = args.get(2).cloned().unwrap_or_default();
